@@ -137,6 +137,8 @@ def classify(case, ctx=None, n1=4000):
     d, m0, S0, R, y, m, P, logZ = problem(case)
     C = f"{case['family']}:{case['estimator']}:d{d}"
     mf = case["family"] in ("mean_field", "two_site", "shared_mean", "per_site")
+    if case["family"] in ("shared_mean", "per_site"):
+        n1 = 4 * n1  # the effect of coordinates sharing noise is of second order in the scales: more draws (cheap, one vmapped jit)
     fails, info = [], {"log_evidence": logZ}
     c = ctx if ctx is not None else type("C", (), {"stat_tests": 0, "stat_stage2": 0})()
     try:
